@@ -307,6 +307,13 @@ def paddedSlices (size : Nat) (f : α) (src : List α) : List (List α) :=
   (List.range src.length).map
     (fun i => (src.drop i).take size ++ List.replicate (size - (src.length - i)) f)
 
+/-- the keys of the items that are not the first item with their key, in input order
+    (`seen` = keys met so far) -/
+def laterKeys [DecidableEq κ] (f : α → κ) : List κ → List α → List κ
+  | _, [] => []
+  | seen, x :: xs =>
+    if f x ∈ seen then f x :: laterKeys f seen xs else laterKeys f (f x :: seen) xs
+
 def pyLstrip (p : α → Bool) (xs : List α) : List α := xs.dropWhile p
 def pyRstrip (p : α → Bool) (xs : List α) : List α := (xs.reverse.dropWhile p).reverse
 def pyStrip (p : α → Bool) (xs : List α) : List α := pyRstrip p (pyLstrip p xs)
